@@ -261,11 +261,13 @@ func (lh *WorkerLoop) onNewConsensusRound(prevBlock interfaces.Block, prevBlockP
 	lh.logger.ConsensusTrace("starting a new consensus round", nil)
 
 	lh.leanHelixTerm = leanhelixterm.NewLeanHelixTerm(ctx, lh.logger, lh.config, lh.state, lh.electionTrigger, lh.onCommit, prevBlock, prevBlockProofBytes, canBeFirstLeader)
-	lh.logger.Debug("onNewConsensusRound() Calling ConsumeCacheMessages for H=%d", lh.state.Height())
-	lh.filter.ConsumeCacheMessages(lh.leanHelixTerm)
+	// report the round before replaying cached messages: they may already decide this height and start the next
+	// one (re-entering this function), after which lh.state.Height() is no longer the height of this round
 	if lh.onNewConsensusRoundCallback != nil {
 		lh.onNewConsensusRoundCallback(ctx, lh.state.Height(), prevBlock, canBeFirstLeader)
 	}
+	lh.logger.Debug("onNewConsensusRound() Calling ConsumeCacheMessages for H=%d", lh.state.Height())
+	lh.filter.ConsumeCacheMessages(lh.leanHelixTerm)
 }
 
 func (lh *WorkerLoop) cleanupCurrentTerm() {
